@@ -68,6 +68,13 @@ def main(argv=None):
     except Exception:
         traceback.print_exc()
         ctx.checker_failure("unhandled exception in the checker (not a property verdict)")
+    if ctx.violations:
+        agg = {}
+        for v in ctx.violations:
+            agg[v["name"]] = agg.get(v["name"], 0) + 1
+        print("failing obligations/monitors (%d distinct):" % len(agg))
+        for nm, k in sorted(agg.items(), key=lambda kv: -kv[1])[:60]:
+            print("   %5d x %s" % (k, nm))
     ev = ctx.write_evidence(registry.PROPS[prop]["level"])
     code = ctx.exit_code()
     cov = ev["coverage"]
